@@ -60,6 +60,8 @@ def s_nearmiss_chars(tier, rng, evs=EVS):
               0x00AA, 0x00AF, 0x2030, 0x2032, 0x03C0 - 1, 0x03C0 + 1, 0x03A0, 0x0660, 0x0661, 0x0969, 0xFF10, 0xFF11, 0xFF19, 0xFF08, 0xFF09, 0xFF0B,
               0x2212, 0x00D7, 0x00F7, 0x2044, 0x2308 - 1, 0x230B + 1, 0x2309, 0x230A, 0x2070 - 1, 0x2079 + 1, 0x1D7CF, 0x00B2 - 1, 0x00B3 + 1, 0x00B9 - 1, 0x00B9 + 1,
               0x40 - 1, 0x40 + 1, 0x69 + 1, 0x2E - 1, 0x2C - 1, 0x5E - 1, 0x5E + 1, 0x7C + 1, 0x26 - 1, 0x3C - 1, 0x3E + 1, 0x21 - 1, 0x25 - 1, 0x25 + 1, 0x130, 0x131]
+    # control characters that are not White_Space (C0 except TAB..CR, DEL, C1 except NEL), soft hyphen, format characters
+    exotic += [c for c in range(0, 0x20) if not 9 <= c <= 13] + [0x7F, 0x80, 0x84, 0x86, 0x9F, 0xAD, 0x200B, 0x200E, 0x2060, 0xFEFF, 0xE0020]
     ctx = ['%s', '2%s', '2²%s', '2%s²', '2⁰%s', '(1+1)¹%s+1', '%s2', '2+%s', '2%s3', 's%sin(1)', 'sin(1%s)', '2³%s²', '@%s', '2.%s5']
     out = []
     for ev in evs:
@@ -438,7 +440,8 @@ def s_aggmix(tier, rng, evs=('f64', 'i64', 'decimal', 'number')):
 def s_maxlen(tier, rng, evs=EVS, mode='eval'):
     """inputs of exactly 253..257 characters in every shape that buys nesting or length per character: prefix signs, brackets,
        juxtaposed brackets, function calls, floor brackets, postfix runs, flat and right-nested chains, long literals,
-       long argument lists -- each over every one-character operand; 257 must be rejected, 256 must not"""
+       long argument lists -- each over every one-character operand (the 256-character bound is the property's scope,
+       not a limit of the library: longer inputs are evaluated too)"""
     out = []
     for ev in evs:
         ops1 = ['1', '@'] + (['e', 'π'] if ev != 'i64' else []) + (['i'] if ev == 'complex' else [])
@@ -564,6 +567,15 @@ def s_nested(tier, rng, evs=EVS):
 
 def run_C02(tier, rng, stats):
     cs = s_loops(tier, rng) + s_nested(tier, rng) + s_maxlen(tier, rng) + s_wf(tier, rng, nq=200, nt=2000) + s_tokseq(tier, rng, qlen=3, tlen=3)
+    # long flat inputs (the bound is linear in the length for every length; nesting stays shallow so the native stack is not the subject)
+    for ev in EVS:
+        f = gen.F1[ev][0]
+        for k in (250, 1000) if tier == 'quick' else (250, 1000, 4000):
+            for piece in ['(1)+', '1+', f + '(1)+', '2(3)+', '((1))*', '1²+'] + ([gen.FV[ev][0] + '(1,2)+'] if gen.FV[ev] else []) + (['3!+'] if gen.HAS_BANG[ev] else []):
+                cs.append(case(ev, 'eval', None, piece * k + '1'))
+            if gen.FV[ev]:
+                cs.append(case(ev, 'eval', None, gen.FV[ev][0] + '(' + ','.join(['(1)'] * k) + ')'))
+            cs.append(case(ev, 'eval', None, '1' * k + ('' if ev == 'i64' else '.5') + '+' + '0' * k + '1'))
     stats['rule'] = ('every looping construct (!, w, ilog, gcd, lcm) over extreme / non-finite / zero / negative / base-1 operands and placeholders, '
                      'every construct nested in each operand position at depths up to the 256-character bound, inputs near 256 chars, random expressions; ticks measured by the cfg-guarded counter, 4 s wall-clock watchdog per case')
     cases, outs, model = run_streams(cs, stats, profiles=('debug',), budget=10**7)
@@ -1076,6 +1088,25 @@ def run_C12(tier, rng, stats):
                     for c in ['%s', '1+%s', '2*%s', '(%s)/3']:
                         pairs.append((case(ev, 'eval', None, c % (A + R)), case(ev, 'eval', None, c % ('(' + A + '*(' + R + '))')), 'implicit product chain vs (A*(R))'))
                         pairs.append((case(ev, 'ast', None, c % (A + R)), case(ev, 'ast', None, c % ('(' + A + '*(' + R + '))')), 'implicit product chain vs (A*(R)) (tree)'))
+    # chains whose MIDDLE factor carries a suffix: A M! C = (A*((M)!*(C))) (a factorial inside a right factor continues the
+    # product); with ^ / superscript suffixes the model decides (compared as plain cases below)
+    extra = []
+    for ev in EVS:
+        As = ['3', '(3)', 'abs(3)'] + (['3!'] if gen.HAS_BANG[ev] else [])
+        Ms = ['2', '(2)', 'abs(2)'] + (['⌊2⌋'] if gen.HAS_FLOORBR[ev] else [])
+        Cs = ['2', '(4)', 'abs(5)', '(4)!' if gen.HAS_BANG[ev] else '(4)', '2(3)']
+        for A in As:
+            for M in Ms:
+                if A == '3' and M == '2':
+                    continue
+                for C in Cs:
+                    for c in ['%s', '7-%s', '2*%s', '(%s)', '2^%s']:
+                        if gen.HAS_BANG[ev]:
+                            pairs.append((case(ev, 'eval', None, c % (A + M + '!' + C)), case(ev, 'eval', None, c % ('(' + A + '*((' + M + ')!*(' + C + ')))')), 'A M! C vs (A*((M)!*(C)))'))
+                            pairs.append((case(ev, 'eval', None, c % (A + M + '!!' + C)), case(ev, 'eval', None, c % ('(' + A + '*(((' + M + ')!)!*(' + C + ')))')), 'A M!! C vs (A*(((M)!)!*(C)))'))
+                        for sfx in ['²', '^2', '^2!', '²!'] + (['°'] if gen.POSTFIX5[ev] else []):
+                            extra.append(case(ev, 'eval', None, c % (A + M + sfx + C)))
+                            extra.append(case(ev, 'ast', None, c % (A + M + sfx + C)))
     # every function-call form as the LEFT factor, including the zero-argument avg() that the parser turns into a literal
     for ev in EVS:
         calls = [f + '(2)' for f in gen.F1[ev][:6]] + [f + '(2,3)' for f in gen.F2[ev][:3]] + \
@@ -1102,7 +1133,7 @@ def run_C12(tier, rng, stats):
     stats['rule'] = ('implicit products A R (A: literal / group / floor-ceil brackets / call / factorial; R: group, brackets, call or literal with ^, superscript, ! suffixes) '
                      'in %d syntactic contexts per evaluator, each rendered implicitly and as (A*(R)); plus forbidden juxtapositions with constants, @, superscripts, ° and rad' % len(ctxs('f64')))
     res = run_pairs('C12', pairs, stats, profiles=('debug',))
-    cases, outs, model = run_streams(rej + s_tokseq(tier, rng, mode='ast', qlen=4, tlen=5), stats, profiles=('debug',))
+    cases, outs, model = run_streams(rej + extra + s_tokseq(tier, rng, mode='ast', qlen=4, tlen=5), stats, profiles=('debug',))
     merge(res, std_judge('C12', cases, outs, model))
     rejset = set(rej)
     for c, x in zip(cases, outs['debug']):
@@ -1188,7 +1219,7 @@ def run_C13(tier, rng, stats):
         for wch in WS:
             for j in range(len(base) + 1):
                 pairs.append((case(ev, 'eval', None, base), case(ev, 'eval', None, base[:j] + chr(wch) + base[j:]), 'white space'))
-        for zw in [0x200B, 0x180E, 0xFEFF, 0x2060]:     # look-alikes that are NOT White_Space: must be rejected, not stripped
+        for zw in [0x200B, 0x180E, 0xFEFF, 0x2060] + [c for c in range(0, 0x20) if not 9 <= c <= 13] + [0x7F, 0x80, 0x84, 0x86, 0x9F, 0xAD, 0x2027, 0x202A, 0x2061, 0x1D, 0xE0020]:     # look-alikes / controls that are NOT White_Space: must be rejected, not stripped
             pairs.append((case(ev, 'eval', None, 'q'), case(ev, 'eval', None, '1' + chr(zw) + '+1'), 'non-white-space look-alike is an error'))
     stats['rule'] = ('metamorphic pairs: 1-4 random White_Space characters inserted anywhere (and every one of the 25 characters at every position of a fixed expression), '
                      'alias swaps, floor/ceil brackets, mod/pow as operators, superscript run vs ^N in the stated follow contexts, prefix +, redundant brackets; well-formed and mutated inputs')
@@ -1966,12 +1997,19 @@ def funcgrid_args(tier):
         xs += [k + 0.5 for k in range(-1100, 1100)]
     return xs
 
+def tenths(tier):
+    """non-integer arguments k/10 (and k/100 around the integers, thorough): value windows between the integers"""
+    xs = [k / 10.0 for k in range(-300, 301) if k % 10]
+    if tier == 'thorough':
+        xs += [k / 100.0 for k in range(-3000, 3001) if k % 10]
+    return xs
+
 def s_funcgrid(tier, rng, evs=('f64', 'number', 'complex', 'decimal')):
     out = []
     xs = funcgrid_args(tier)
     for ev in evs:
         for f in gen.F1[ev]:
-            for x in xs:
+            for x in xs + [t for t in tenths(tier) if tier == 'thorough' or abs(t) <= 3.05]:
                 if ev == 'decimal':
                     if abs(x) > 130 or x != int(x) and abs(x) > 100:
                         continue
@@ -1984,6 +2022,11 @@ def s_funcgrid(tier, rng, evs=('f64', 'number', 'complex', 'decimal')):
                 else:
                     out.append(case(ev, 'eval', (f2w(x) if ev == 'f64' else 'F' + f2w(x)), f + '(@)'))
         if gen.HAS_BANG[ev]:
+            for x in tenths(tier):
+                if ev == 'decimal':
+                    out.append(case(ev, 'eval', None, '(' + dec_lit(x) + ')!'))
+                else:
+                    out.append(case(ev, 'eval', (f2w(x) if ev == 'f64' else 'F' + f2w(x)), '@!'))
             for x in xs:
                 if ev == 'decimal':
                     if abs(x) <= 40:
